@@ -62,6 +62,12 @@ def chunks {E : Type} (n : Nat) (es : List E) : List (List E) :=
 def partsRun {E O σ : Type} (m : Machine E O σ) (init : σ) (parts : List (List E)) : List O :=
   parts.flatMap fun p => m.run init p
 
+/-- what reaches stdout of a burst of output events when nobody drains the output channel meanwhile:
+`send_output_shared` uses `try_send` on a channel of capacity `1000 * workers` and drops on overflow
+(worst case of the listed finding `C18-output-listing-loss`; the collector's fixed 100 ms grace
+period can lose even more) -/
+def listedBurst {O : Type} (capacity : Nat) (burst : List O) : List O := burst.take capacity
+
 /-! ### Events, values and the two notions of key -/
 
 inductive Val
